@@ -117,6 +117,7 @@ type Interp struct {
 	timeTexts []*timeEntry
 	numSeq    int
 	lastDec   []*Term
+	rng       map[int]urange // unsigned bounds of variables implied by the path condition
 	maxValues int
 	decList   []*numEntry
 	decCache  map[[2]int][]*Term // (term id, signed) -> digits: one value, one text
@@ -249,6 +250,13 @@ func (in *Interp) global(g *ssa.Global) *Cell {
 	// opaque error objects named after their global
 	if g.Pkg != nil && !initAllowed(g.Pkg.Pkg.Path()) && types.Identical(t, types.Universe.Lookup("error").Type()) {
 		c.v = in.mkError(g.String())
+	}
+	// time.UTC / time.Local point at their static Location objects (package time's
+	// initialiser is not executed; Local is modelled as UTC)
+	if g.Pkg != nil && g.Pkg.Pkg.Path() == "time" && (g.Name() == "UTC" || g.Name() == "Local") {
+		if loc := g.Pkg.Var("utcLoc"); loc != nil {
+			c.v = in.global(loc)
+		}
 	}
 	in.epoch = save
 	if !in.initing {
